@@ -260,6 +260,7 @@ type xexec struct {
 	dead      bool // live object unusable after a failed valid op; stop
 	opNo      int
 	stepNo    int64
+	wotsChecks int
 	heldSigs  []heldSig // signatures the key returned, kept as returned (no copy)
 	pendSnap  []string // snapshot differences awaiting confirmation by observation
 	diverged  bool     // an observable live/twin divergence was reported
@@ -637,6 +638,21 @@ func (x *xexec) checkSignature(msg, sig []byte, idx uint32) {
 			return
 		}
 		x.checkAuth(sig[sigAuthOffset:], idx, "sign")
+		// the WOTS part is real code even with stub leaves: for a sample of
+		// signatures recompute the leaf it commits to (as verification would)
+		// and compare it with the real leaf of that index
+		if idx < 2 || idx%61 == 0 || idx >= x.leaves-1 || x.wotsChecks < 4 {
+			x.wotsChecks++
+			var got, want []byte
+			oc := guard(func() {
+				got = xmss.VerifLeafFromSignature(x.hashFn, msg, sig, x.root, x.pubSeed)
+				want = x.live.VerifRealLeaf(idx)
+			})
+			x.res.Probes.Add("wots-part-checked-in-stub-mode", 1)
+			if oc.panicked || got == nil || !bytes.Equal(got, want) {
+				x.violate("C01", "wots-part-wrong", fmt.Sprintf("%s,idx=%d", x.cfgSig(), idx), fmt.Sprintf("the WOTS part of the signature at index %d does not lead to that index's leaf: Verify would reject it %s", idx, oc.pval))
+			}
+		}
 		return
 	}
 	var ok bool
